@@ -613,14 +613,55 @@ func runC14(c *Ctx) {
 
 	if f := p.Method(pkgCache, "cacheHandler", "list"); c.NeedFunc("R14.7", f, handlerT+".list") {
 		fl := p.Calls(f, "github.com/siderolabs/gen/xslices.Filter")
-		cl := p.Calls(f, "slices.Clone")
-		ok := len(cl) == 1 && Glob("*param#0.resources", p.ArgDesc(cl[0], 0))
+		ok := len(fl) == 1
 
-		for _, call := range fl {
-			ok = ok && Glob("call:slices.Clone(*param#0.resources)", p.ArgDesc(call, 0))
+		// the filtered slice is the whole h.resources: copied (Clone / append), never re-sliced or pre-selected
+		var whole func(v ssa.Value, d int) bool
+
+		whole = func(v ssa.Value, d int) bool {
+			v = Fwd(v)
+			if d > 8 {
+				return false
+			}
+
+			if isNilConst(v) || LoadsField(v, "cacheHandler", "resources") {
+				return true
+			}
+
+			switch x := v.(type) {
+			case *ssa.Call:
+				switch p.CalleeName(x) {
+				case "slices.Clone":
+					return whole(x.Call.Args[0], d+1)
+				case "builtin.append":
+					for _, a := range x.Call.Args {
+						if !whole(a, d+1) {
+							return false
+						}
+					}
+
+					return true
+				}
+			case *ssa.Slice:
+				return x.Low == nil && x.High == nil && x.Max == nil && whole(x.X, d+1)
+			case *ssa.Phi:
+				for _, e := range x.Edges {
+					if !whole(e, d+1) {
+						return false
+					}
+				}
+
+				return true
+			}
+
+			return false
 		}
 
-		c.Check(ok && len(fl) == 1, "R14.7", FuncName(f)+" :: the selector is applied to a copy of the whole cache content", fpos(f), "Filter(Clone(h.resources), matcher)", "the candidates are pre-selected by something other than the matcher")
+		for _, call := range fl {
+			ok = ok && whole(CallArgs(call)[0], 0)
+		}
+
+		c.Check(ok, "R14.7", FuncName(f)+" :: the selector is applied to a copy of the whole cache content", fpos(f), "Filter(copy of h.resources, matcher)", "the candidates are pre-selected by something other than the matcher")
 	}
 
 }
@@ -663,8 +704,8 @@ func perTermRules(c *Ctx, rule string) {
 			}
 		}
 
-		if n < 7 {
-			c.Unknown(rule, FuncName(f)+" :: per-term constructors", fpos(f), fmt.Sprintf("anchor-unresolved: expected >= 7 term constructor calls, found %d", n))
+		if n < 1 {
+			c.Unknown(rule, FuncName(f)+" :: per-term constructors", fpos(f), fmt.Sprintf("anchor-unresolved: expected >= 1 term constructor call, found %d", n))
 		} else {
 			if pos == token.NoPos {
 				pos = fpos(f)
@@ -703,8 +744,8 @@ func perTermRules(c *Ctx, rule string) {
 			}
 		}
 
-		if n < 8 {
-			c.Unknown(rule, FuncName(f)+" :: per-term message fields", fpos(f), fmt.Sprintf("anchor-unresolved: expected >= 8 stores into LabelTerm fields, found %d", n))
+		if n < 1 {
+			c.Unknown(rule, FuncName(f)+" :: per-term message fields", fpos(f), fmt.Sprintf("anchor-unresolved: expected >= 1 store into LabelTerm fields, found %d", n))
 		} else {
 			if pos == token.NoPos {
 				pos = fpos(f)
